@@ -1236,7 +1236,87 @@ def lower_combinators(repo):
     return count
 
 
+# ---------------------------------------------------------------- index loops
+def _index_loops(func):
+    """i = 0 ... while i < len(xs): T = xs[i]; BODY; i += 1     is     for T in xs: BODY
+    when i is used for nothing else in the function and BODY neither rebinds xs nor continues
+    (a list / tuple is indexed in order and its length re-read on every pass by both forms)"""
+    count = 0
+    uses = {}
+    for n in ast.walk(func):
+        if isinstance(n, ast.Name):
+            uses.setdefault(n.id, []).append(n)
+
+    def rewrite(stmts):
+        nonlocal count
+        out = []
+        for s_ in stmts:
+            for fld in ('body', 'orelse', 'finalbody'):
+                b = getattr(s_, fld, None)
+                if isinstance(b, list) and b and isinstance(b[0], ast.stmt) and not isinstance(s_, (ast.FunctionDef, ast.ClassDef, ast.AsyncFunctionDef)):
+                    setattr(s_, fld, rewrite(b))
+            for h in getattr(s_, 'handlers', []) or []:
+                h.body = rewrite(h.body)
+            new = try_one(s_)
+            if new is not None:
+                count += 1
+                out.append(new)
+            else:
+                out.append(s_)
+        return out
+
+    def try_one(w):
+        if not isinstance(w, ast.While) or w.orelse or len(w.body) < 2:
+            return None
+        t = w.test
+        if not (isinstance(t, ast.Compare) and len(t.ops) == 1 and isinstance(t.ops[0], ast.Lt) and isinstance(t.left, ast.Name)
+                and isinstance(t.comparators[0], ast.Call) and isinstance(t.comparators[0].func, ast.Name) and t.comparators[0].func.id == 'len'
+                and len(t.comparators[0].args) == 1 and isinstance(t.comparators[0].args[0], ast.Name)):
+            return None
+        i, xs = t.left.id, t.comparators[0].args[0].id
+        first, last = w.body[0], w.body[-1]
+        if not (isinstance(first, ast.Assign) and len(first.targets) == 1 and isinstance(first.value, ast.Subscript) and isinstance(first.value.value, ast.Name)
+                and first.value.value.id == xs and isinstance(first.value.slice, ast.Name) and first.value.slice.id == i):
+            return None
+        if not (isinstance(last, ast.AugAssign) and isinstance(last.op, ast.Add) and isinstance(last.target, ast.Name) and last.target.id == i
+                and isinstance(last.value, ast.Constant) and last.value.value == 1):
+            return None
+        middle = w.body[1:-1]
+        for st in middle:
+            for n in ast.walk(st):
+                if isinstance(n, ast.Continue) or (isinstance(n, ast.Name) and n.id == i) or (isinstance(n, ast.Name) and n.id == xs):
+                    return None
+        # every use of i in the function: one ``i = 0`` plus the three uses in this loop
+        mine = {id(t.left), id(first.value.slice), id(last.target)}
+        others = [n for n in uses.get(i, []) if id(n) not in mine]
+        if len(others) != 1 or not isinstance(others[0].ctx, ast.Store):
+            return None
+        init = [a for a in ast.walk(func) if isinstance(a, ast.Assign) and len(a.targets) == 1 and a.targets[0] is others[0]]
+        if not init or not (isinstance(init[0].value, ast.Constant) and init[0].value.value == 0 and init[0].value.value is not False):
+            return None
+        if init[0].lineno > w.lineno:
+            return None
+        # xs: bound once (before the loop), to something that is not rebound in the loop
+        xstores = [n for n in uses.get(xs, []) if isinstance(n.ctx, (ast.Store, ast.Del))]
+        if len(xstores) != 1 or xstores[0].lineno > w.lineno:
+            return None
+        new = ast.For(target=first.targets[0], iter=ast.Name(id=xs, ctx=ast.Load()), body=middle or [ast.Pass()], orelse=[])
+        return ast.fix_missing_locations(ast.copy_location(new, w))
+
+    func.body = rewrite(func.body)
+    return count
+
+
+def lower_index_loops(repo):
+    n = 0
+    for fi in repo.functions.values():
+        if isinstance(fi.node, ast.FunctionDef) and any(isinstance(x, ast.While) for x in ast.walk(fi.node)):
+            n += _index_loops(fi.node)
+    return n
+
+
 def inline_helpers(repo):
+    repo.lowered_index_loops = lower_index_loops(repo)
     repo.lowered_combinators = lower_combinators(repo)
     repo.desugared_super = desugar_super(repo)
     repo.comprehension_statements = comprehension_statements(repo)
